@@ -336,4 +336,4 @@ Example c17_nonvacuous :
   frame_ok w_schemas c17_example_lrs "go" w_before c17_example_out = true /\
   c17_example_summary c17_example_out
   = [("Foo", ["tags"; "more"; "name"; "labels"], 0, 0); ("FooCopy", ["withTags"; "labels"; "both"], 1, 1)].
-Proof. repeat split; vm_compute; reflexivity. Qed.
+Proof. split; [|split; [|split; [|split; [|split]]]]; vm_compute; reflexivity. Qed.
